@@ -60,6 +60,7 @@ let atom_sx = function
 
 let rec ctr_sx = function
   | A "dyn" -> CDyn | A "num" -> CNum | A "str" -> CStr
+  | L [A "gt"; k] -> CGt (z_of_int (int_sx k))
   | L [A "arr"; c] -> CArr (ctr_sx c)
   | L [A "dictt"; c] -> CDictT (ctr_sx c)
   | L [A "dictc"; c] -> CDictC (ctr_sx c)
@@ -137,7 +138,15 @@ let rec obs_sx = function
   | L [A "call"; a] -> OCall (atom_sx a)
   | x -> bad "obs" x
 
+let rec tree_sx = function
+  | L (A "l" :: xs) -> TL (List.map tree_sx xs)
+  | L (A "r" :: fs) -> TR (List.map (function L [k; x] -> (str_sx k, tree_sx x) | x -> bad "tree field" x) fs)
+  | x -> TA (atom_sx x)
+
+let ctrs_sx = function L cs -> List.map ctr_sx cs | x -> bad "contract list" x
+
 let container_sx = function
+  | L [A "ktree"; t] -> KTree (tree_sx t)
   | L (A "karr" :: xs) -> KArr (List.map atom_sx xs)
   | L (A "karr2" :: rows) -> KArr2 (List.map (function L r -> List.map atom_sx r | x -> bad "row" x) rows)
   | L (A "krec" :: fs) -> KRec (List.map (function L [k; a] -> (str_sx k, atom_sx a) | x -> bad "field" x) fs)
@@ -179,6 +188,11 @@ let () =
           match String.split_on_char '\t' line with
           | "run" :: t :: k :: o :: _ ->
             show_res (run fuel (container_sx (parse_sx k)) (octr_sx (parse_sx t)) (obs_sx (parse_sx o)))
+          | "stack" :: ts :: k :: o :: _ ->
+            show_res (run_stack fuel (container_sx (parse_sx k)) (ctrs_sx (parse_sx ts)) (obs_sx (parse_sx o)))
+          | "concat" :: ts1 :: k1 :: ts2 :: k2 :: o :: _ ->
+            show_res (run_concat fuel (container_sx (parse_sx k1)) (ctrs_sx (parse_sx ts1))
+                        (container_sx (parse_sx k2)) (ctrs_sx (parse_sx ts2)) (obs_sx (parse_sx o)))
           | "rundom" :: t :: k :: o :: _ ->
             show_res (run_dom fuel (container_sx (parse_sx k)) (ctr_sx (parse_sx t)) (obs_sx (parse_sx o)))
           | "reach" :: t :: k :: o :: p :: _ ->
